@@ -17,6 +17,9 @@ def run(chk):
                        "a same-index accumulator re-signed at another time is the same accumulator (don't-care)"]
     cfg = "NonRev.mc.%s.cfg" % T
     g = vplib.tlc_mc("NonRevGen", cfg, workers=1, timeout=900)
+    if thorough:
+        vplib.coverage_check(chk, "NonRevGen", "NonRev.mc.quick.cfg", workers=1, timeout=600)
+        vplib.coverage_check(chk, "GabiGen", "Gabi.mc.quick.cfg", workers=1, timeout=600)
     hs = sorted(set(g.tagged_raw_json("H")))
     chk.add_tlc(g, "NonRevGen", cfg, "%d complete histories" % len(hs))
     if len(hs) < 1000:
